@@ -10,12 +10,13 @@ def check(tree, rep, tier='quick', seed=0):
                        'failing check raising its own exception (K11); the raw configuration is reachable only inside InputStore and lines reach '
                        'inputs only by subscripting the accessor (K11b, L1); every valid() goes through its own value() and returns False on '
                        'conversion errors (K11c); a float input passes a finiteness test before it is returned (K11d); supplied <=> found, no '
-                       'fallback or defaults on any parser (K11e); the prompt loop returns only validated answers (K20).')
-    rep.rule_text = 'obligation = one rule instance (K11 K11b K11c K11d K11e K20 L1) on one construct'
+                       'fallback or defaults on any parser (K11e); every value() returns its declared kind on every return statement, and enumeration members are looked up by subscripting the enumeration, whose range is exactly the members (K11f); the prompt loop returns only validated answers (K20).')
+    rep.rule_text = 'obligation = one rule instance (K11 K11b K11c K11d K11e K11f K20 L1) on one construct'
     rep.exhaustive = True
     rep.assumptions = ['NOT decided: the accepted language of each validator for arbitrary strings (unicode digits, underscores, case) - a runtime string domain']
     core = get_core(tree)
     R.k11_input_gate(core, rep)
+    R.k11f_value_kinds(core, rep)
     R.k20_ctrl_c(core, rep)
     R.k8_input_store_writes(core, rep)
     l1_access(tree, rep)
